@@ -78,6 +78,10 @@ CLAIMED = {
          "Exploration. The C11 unit generator plus generated .debug_frame/.eh_frame tables with absolute, pc-relative and sized pointer encodings. Writing side: recorded relocations applied to the recorded output must reproduce the direct output byte for byte, lie inside their sections and not overlap. Reading side: every recorded field is overwritten with garbage and parsed through RelocateReader with the recorded table; the dump of everything the reader exposes must equal that of the pre-applied bytes, which fails for any address or section offset parsed outside the relocatable primitives.",
          "Sections are placed at address 0 and the relocation table ignores stored bytes (RELA style). Requests refused under only one address representation are skipped. 'Nothing else is relocated' is covered only in the sense that unrecorded offsets are never altered by the table.",
          "DESIGN.md §4 C18"),
+ 'C01': ("proptest random and structure-aware mutated section sets driven through every reading, lookup, unwinding, evaluation and conversion entry point, with truncation sweeps and a fault-injecting Reader; oracle = robustness invariants (no panic / abort / stack overflow / hang, bounded lazy iterators, documented stop-after-error), observed in-process and through worker exit status and a watchdog",
+         "Exploration. Random bytes, well-formed assembler output for every section kind, and mutations of it (overwrites, extreme patterns, truncation, splices, repetition, long runs, swaps), deep nesting (entry_value inside entry_value, chains of only-children, long runs of null tuples) on a 2 MiB stack, generated expression bytecode for address sizes 1/2/4/8; every public read-side entry point incl. .debug_names, package indexes, aranges, pubnames, macros, CFI and .eh_frame_hdr, the evaluator with canned answers, Dwarf::from and FrameTable::from (+ write); truncation at every byte of one section and reader failure at every operation (strided). Both build profiles, so arithmetic overflow and debug assertions count.",
+         "Never establishes absence. Memory safety relies on Rust's checks (no sanitizer run in the quick tier). Results of Dwarf::from with entries nested > 1000 deep are not written (recorded finding). Reader failures are injected only for the Dwarf-level readers, not the frame sections.",
+         "DESIGN.md §4 C01"),
 }
 NOT_YET = "check not built yet in this session (machinery is being extended property by property; see DESIGN.md §4)"
 
